@@ -577,6 +577,41 @@ def readRTCP {W WC} (ci : Cipher W WC) (inCtx : Option Ctx) (b : BodyC WC) : Rea
     | some p => .deliver p
     | none => .decodeError
 
+/-! ## E. one outgoing context shared by several goroutines
+
+The outgoing context of a stream media is shared by all its RTP/SAVP readers (periodic sender reports
+of every reader session, `ServerStream.WritePacketRTP/RTCP` from application goroutines).  A call to
+`encryptRTCP` / `encryptRTP` touches the shared state of the pion context twice: it READS the counter
+(SRTCP index / per-SSRC packet index, and the HMAC state) and later WRITES it back incremented while
+emitting the packet built from the value it read.  Under `ctx.mutex.Lock()` the two accesses are one
+step; under a read lock, or none, other goroutines can run between them. -/
+
+/-- every call into the pion context that mutates it sits in an exclusive critical section
+(facts regenerated from `wrapped_srtp_context.go`: `Lock`, not `RLock`, around `EncryptRTP` and
+`EncryptRTCP`; `ROC` under a lock; no other call sites; `SetROC` only in `initialize`) -/
+def encryptSerialised : Bool :=
+  Sec.encryptRTPLocked && Sec.encryptRTCPLocked && Sec.rocLocked &&
+  (Sec.encryptCallSites == 2) && (Sec.contextWriteCallSites == 1)
+
+structure Shared where
+  counter : Nat := 0
+  pending : List (Nat × Nat) := []   -- goroutine ↦ counter value it has read (call in progress)
+  emitted : List Nat := []           -- counter values used for emitted packets, in emission order
+deriving Repr, DecidableEq
+
+def erase {α} (m : List (Nat × α)) (k : Nat) : List (Nat × α) := m.filter fun kv => kv.1 != k
+
+/-- one scheduling turn of goroutine `g` -/
+def turn (atomic : Bool) (s : Shared) (g : Nat) : Shared :=
+  if atomic then { s with counter := s.counter + 1, emitted := s.emitted ++ [s.counter + 1] }
+  else
+    match lookup s.pending g with
+    | none => { s with pending := insert s.pending g s.counter }
+    | some v => { counter := v + 1, pending := erase s.pending g, emitted := s.emitted ++ [v + 1] }
+
+/-- a schedule: which goroutine runs at each turn -/
+def runSched (atomic : Bool) (sched : List Nat) : Shared := sched.foldl (turn atomic) {}
+
 /-! ### the ideal cipher (an instance of the laws; used by the oracle executable) -/
 
 structure IdealW where
